@@ -69,7 +69,8 @@ let pipeline v =
 let handle = function
   | ["conv"; d] -> (try pipeline (parse_dump d) with Bad -> "BAD-DUMP")
   | ["tree"; d] -> (try pipeline (parse_dump d) with Bad -> "BAD-DUMP")
-  | ["at"; d; ph] ->
+  | "mxc" :: d :: _ -> (try pipeline (parse_dump d) with Bad -> "BAD-DUMP")
+  | ["at"; d; ph] | "mx" :: d :: ph :: _ ->
     (try
       let v = parse_dump d in
       let path = bytes_of_hex ph in
